@@ -467,6 +467,14 @@ type leafCore struct {
 	id int
 }
 
+// prepAsEres: in generated scenarios the Result-style prep function of every other node hands a nil value over as an
+// error Result (see buildFuncNode); its value is nil - whether post is also shown the error state is left open (a second
+// wrapping is not: that is Wrap "double")
+func (c *leafCore) prepAsEres(p Obs) bool {
+	nc := c.s.cfg.Nodes[c.id-1]
+	return c.s.cfg.GenMode != "" && nc.Func && len(nc.Sty) == 3 && nc.Sty[0] == "r" && (c.id+c.s.cfg.Variant)%2 == 0 && p.Tok == 0
+}
+
 // ---- re-entrancy: a nested run of the same node object -----------------------------------------------
 //
 // One exec callback of the scenario runs the very node object it belongs to once more - on a store of its own, under a
@@ -736,7 +744,7 @@ func (c *leafCore) post(ctx context.Context, shared *flyt.SharedStore, p, x Obs)
 		s.doConnect(s.pending[0])
 		s.pending = s.pending[1:]
 	}
-	ev := Event{"ev": "post", "node": c.id, "sok": shared == s.store, "cok": cok, "wrote": t, "prep": p.Tok, "pid": p.Same && p.Wrap == "raw" && !p.IsErr,
+	ev := Event{"ev": "post", "node": c.id, "sok": shared == s.store, "cok": cok, "wrote": t, "prep": p.Tok, "pid": p.Same && p.Wrap == "raw" && (!p.IsErr || c.prepAsEres(p)),
 		"exec": x.Tok, "eid": x.Same, "ew": x.Wrap, "eerr": x.IsErr, "eerrtok": x.ErrTok,
 		"out": o.Out, "act": 0, "err": 0, "cancel": o.Cancel}
 	if o.Out == "panic" {
